@@ -275,6 +275,19 @@ Proof. intros. unfold gen_mu_fisher, mu_fisher. destruct (validate F eps true (m
   apply sumn_ext; intros x Hx. now rewrite gen_replace_prob_dist_eq_sec. Qed.
 Lemma gen_fisher_default_eps_sec : gen_fisher_default_eps_num = 3022314549036573%Z /\ gen_fisher_default_eps_den = (2 ^ 78)%Z.
 Proof. split; reflexivity. Qed.
+
+(* ---------------- num_outcomes(schedule_index): the POVM NAMED in the schedule (not the schedule_index-th tester) ---------------- *)
+Definition gen_num_outcomes (ty : ttype) (sched : nat -> list nat) (povm_len : nat -> nat) (mo j : nat) : nat :=
+  match ty with
+  | QST => gen_qst_num_outcomes sched povm_len mo j
+  | POVMT => gen_povmt_num_outcomes sched povm_len mo j
+  | QPT => gen_qpt_num_outcomes sched povm_len mo j
+  | QMPT => gen_qmpt_num_outcomes sched povm_len mo j
+  end.
+Lemma gen_num_outcomes_eq_sec : forall ty sched povm_len mo j,
+  gen_num_outcomes ty sched povm_len mo j = num_outcomes_spec ty sched povm_len mo j.
+Proof. intros. destruct ty; cbv [gen_num_outcomes num_outcomes_spec gen_qst_num_outcomes gen_povmt_num_outcomes gen_qpt_num_outcomes gen_qmpt_num_outcomes];
+  try reflexivity; lia. Qed.
 End Equiv.
 
 (* ---- the theorems, closed (stated outside the section so that Print Assumptions reports the global context) ---- *)
@@ -384,3 +397,7 @@ Print Assumptions gen_mu_fisher_eq.
 Theorem gen_fisher_default_eps_is_1e8 : forall F : OF, gen_fisher_default_eps_num = 3022314549036573%Z /\ gen_fisher_default_eps_den = (2 ^ 78)%Z.
 Proof. intro F; exact (gen_fisher_default_eps_sec F) || exact gen_fisher_default_eps_sec. Qed.
 Print Assumptions gen_fisher_default_eps_is_1e8.
+Theorem gen_num_outcomes_eq : forall F : OF, forall ty sched povm_len mo j,
+  gen_num_outcomes ty sched povm_len mo j = num_outcomes_spec ty sched povm_len mo j.
+Proof. intro F; exact (gen_num_outcomes_eq_sec F) || exact gen_num_outcomes_eq_sec. Qed.
+Print Assumptions gen_num_outcomes_eq.
